@@ -26,7 +26,8 @@ Record table := mkTable {
   t_stmt_generic_rejects : bool;             (* CFGBuilder.generic_visit always raises *)
   t_expr_generic_rejects : bool;             (* ExprSynthesizer.generic_visit always raises *)
   t_stmt_handlers : list string;             (* kinds K with CFGBuilder.visit_K *)
-  t_expr_handlers : list string }.           (* kinds K with visit_K in one of the four expression visitors *)
+  t_expr_handlers : list string;             (* kinds K with visit_K in one of the four expression visitors *)
+  t_lowering : bool }.                       (* false: front end (builder + checkers); true: lowering (compilers) *)
 
 Definition mem (x : string) (l : list string) : bool := existsb (String.eqb x) l.
 
@@ -52,6 +53,20 @@ Definition allowlist : list (string * string * string) := [
 
 Definition allowed (k f : string) : bool :=
   existsb (fun e => match e with (k', f', _) => String.eqb k k' && String.eqb f f' end) allowlist.
+
+(** Additional allowlist for the lowering stage only (ExprCompiler / StmtCompiler work on checked
+    nodes): fields that earlier stages have already consumed.  TRUSTED. *)
+Definition lowering_allowlist : list (string * string * string) := [
+  ("GlobalName", "id", "display name; the definition is identified by def_id");
+  ("GenericParamValue", "id", "display name; the parameter is identified by param");
+  ("SubscriptAccessAndDrop", "original_expr", "kept for the linearity checker's diagnostics only");
+  ("StateResultExpr", "has_array_input", "set by the checker, never read anywhere (the compiler recomputes it from the argument types)");
+  ("AnnAssign", "annotation", "the checker has already checked the value against the annotation and rewrites AnnAssign to Assign")
+].
+
+Definition allowed_in (lowering : bool) (k f : string) : bool :=
+  allowed k f ||
+  (lowering && existsb (fun e => match e with (k', f', _) => String.eqb k k' && String.eqb f f' end) lowering_allowlist).
 
 Definition fields_of (t : table) (k : string) : list field :=
   match find (fun d => String.eqb (k_name d) k) (t_grammar t) with
@@ -86,7 +101,7 @@ Definition read_somewhere (t : table) (k f : string) : bool :=
 
 (** scope s accounts for field f of its kind *)
 Definition accounted (t : table) (s : scope) (f : string) : bool :=
-  s_raises s || touched s f || allowed (s_kind s) f
+  s_raises s || touched s f || allowed_in (t_lowering t) (s_kind s) f
   || (s_pass s && touched_somewhere t (s_kind s) f).
 
 Definition scope_ok (t : table) (s : scope) : bool :=
@@ -160,9 +175,9 @@ Definition forget_field (k f : string) (t : table) : table :=
     (map (fun s => if String.eqb (s_kind s) k
                    then mkScope (s_name s) (s_kind s) (s_pass s) (s_raises s) (drop (s_reads s)) (drop (s_guards s))
                    else s) (t_scopes t))
-    (t_stmt_generic_rejects t) (t_expr_generic_rejects t) (t_stmt_handlers t) (t_expr_handlers t).
+    (t_stmt_generic_rejects t) (t_expr_generic_rejects t) (t_stmt_handlers t) (t_expr_handlers t) (t_lowering t).
 
 (** The table in which kind k has lost its handler and its scopes but the generic fallback of
     its class no longer raises: the kind would be accepted and ignored. *)
 Definition silent_generic (t : table) : table :=
-  mkTable (t_grammar t) (t_members t) (t_scopes t) false false (t_stmt_handlers t) (t_expr_handlers t).
+  mkTable (t_grammar t) (t_members t) (t_scopes t) false false (t_stmt_handlers t) (t_expr_handlers t) (t_lowering t).
